@@ -126,6 +126,11 @@ POOL = [1, 0, -3, 2 ** 40, 255, 1.5, 2.0, -0.0, float("nan"), None, "7", "x", "2
         np.int64(5), np.float32(0.5)]
 
 
+# values that are equal and hash alike across types (1 == 1.0 == True) next to a value no numeric / temporal type
+# accepts: the element-wise probe must judge each element on its own
+DIRECTED = [[1, "x", True], [True, "x", 1], [0, "x", False, 0.0], [1.0, "x", 1, True], [1, None, "x", 7]]
+
+
 def pandas_dtypes():
     from pandera.engines import pandas_engine as pe
     reg = pe.Engine._registry[pe.Engine]
@@ -166,9 +171,12 @@ def run_registry(rep, tier, rng):
     trials = 6 if tier == "quick" else 150
     for name, T in sorted(dts.items()):
         fam = family(name, T)
-        for trial in range(trials):
+        for trial in range(trials + len(DIRECTED)):
             n = rng.randint(0, 4)
             vals = [rng.choice(POOL) for _ in range(n)]
+            if trial < len(DIRECTED):
+                vals = list(DIRECTED[trial])
+                n = len(vals)
             cont = rng.choice(["series", "index", "column"])
             if cont == "index":
                 vals = [v for v in vals if not isnull(v)]        # (an Index holding None / NaN next to other kinds is re-inferred by pandas)
